@@ -142,6 +142,8 @@ def make_matrix(spec: dict) -> np.ndarray:
         np.fill_diagonal(M, -M.sum(axis=1))
     # magnitudes: rate matrices come in arbitrary units; a power of two keeps integer-valued sums exact
     M = M * (2.0 ** spec.get("scale_pow2", 0))
+    if spec.get("dtype") == "int64" and spec["values"] == "int" and spec.get("scale_pow2", 0) == 0:
+        return np.ascontiguousarray(M, dtype=np.int64)  # integer count matrices are matrices too
     return np.ascontiguousarray(M, dtype=float)
 
 
@@ -204,10 +206,11 @@ class MergerCheck(Check):
         spec = {"n": n, "kind": rng.choice(["gen_sym", "gen_asym", "arb", "arb_sym"]),
                 "values": "int" if rng.random() < 0.7 else "real", "seed": rng.randrange(2 ** 32),
                 "density": rng.choice([0.2, 0.6, 1.0]),
-                "scale_pow2": rng.choice([0, 0, 0, -40, -30, -20, -10, 20, 50])}
+                "scale_pow2": rng.choice([0, 0, 0, -40, -30, -20, -10, 20, 50]),
+                "dtype": "int64" if rng.random() < 0.08 else "float64"}
         model = PartitionModel(n)  # strict model, used only to bias generation
         ops = []
-        n_ops = rng.randint(1, 8)
+        n_ops = rng.randint(1, 8) if rng.random() < 0.9 else rng.randint(9, 24)
         faults_enabled = set(k for k in FAULT_KINDS if rng.random() < 0.6)
         if rng.random() < 0.15:
             faults_enabled = set()
@@ -447,6 +450,7 @@ class MergerCheck(Check):
         if accepted is None:
             raise Violation("index-list-mismatch", f"{what}: index list {_short(got)} != model {_short(groups_options[0])}")
         A = np.asarray(got_matrix.toarray() if hasattr(got_matrix, "toarray") else got_matrix, dtype=float)
+        M0 = np.asarray(M0, dtype=float)
         k = len(accepted)
         if A.shape != (k, k):
             raise Violation("shape", f"{what}: matrix shape {A.shape} but {k} groups")
